@@ -194,6 +194,28 @@ def run_case(case, ctx):
                 what = f"{m}{tuple(box)} with dims {dims} padded {tuple(pads)}"
                 if m == "read_subvolume":
                     call = lambda: r.read_subvolume(*box)
+                elif m == "xarray" and u[2] < 0.5:
+                    # an integer indexer on one axis, through the DataArray and through the backend variable:
+                    # out of range raises, a negative one in [-n, 0) is the item Python indexing denotes
+                    n_ax = dims[ax]
+                    i = bad_ordinal(case["ord"], n_ax, pads[ax])
+                    idx = [slice(box[0], min(dims[0], box[0] + 2)), slice(box[2], min(dims[1], box[2] + 2)),
+                           slice(box[4], min(dims[2], box[4] + 2))]
+                    for k in range(3):
+                        if k != ax:
+                            lo_k = int(u[k] * (dims[k] - 1))
+                            idx[k] = slice(lo_k, min(dims[k], lo_k + 2))
+                    idx[ax] = i
+                    empty_ok = False
+                    if -n_ax <= i < 0:
+                        sel = [idx[0], idx[1], idx[2]]
+                        allowed = [T.V[tuple(sel)]]
+                    level = "variable" if u[3] < 0.5 else "data"
+                    what = f"xarray {level}[{idx}] with dims {dims}"
+                    if level == "variable":
+                        call = lambda: H.xr("data").data.variable[tuple(idx)].to_numpy()
+                    else:
+                        call = lambda: H.xr("data").data[tuple(idx)].values
                 elif m == "xarray":
                     if lo < 0 or empty_ok:
                         return {"sig": None, "labels": ["xarray-python-semantics-skipped"]}
